@@ -171,6 +171,23 @@ def outdeg2_canonical(n, loops=True):
     return sorted(out, key=lambda adj: rank(n, adj))
 
 
+def chain_plus(n, k):
+    """Larger structured CFGs: the chain 0>1>...>n-1 plus every set of at most k further edges (any direction, self loops
+    included).  Every node is reachable by construction; deep dominator trees with forward, cross and back edges.
+    Count: sum_{i<=k} C(n*n-(n-1), i).  Returned simplest first."""
+    import itertools
+    base = [1 << (i + 1) if i + 1 < n else 0 for i in range(n)]
+    slots = [(i, j) for i in range(n) for j in range(n) if j != i + 1]
+    out = []
+    for size in range(k + 1):
+        for extra in itertools.combinations(slots, size):
+            adj = list(base)
+            for i, j in extra:
+                adj[i] |= 1 << j
+            out.append(tuple(adj))
+    return out
+
+
 def selfcheck():
     """Counts against the closed form and against a naive second enumeration; returns a dict of the counts."""
     res = {}
@@ -209,6 +226,9 @@ def selfcheck():
         classes_all = {canon(a) for _, a in rooted_codes(n, True) if all(bin(m).count("1") <= 2 for m in a)}
         assert classes_family == classes_all, (n, len(classes_family), len(classes_all))
         res["outdeg2 n=%d" % n] = (len(fam), len(classes_all))
+    fam = chain_plus(5, 2)
+    assert len(fam) == len(set(fam)) == 1 + 21 + comb(21, 2) and all(all_reachable(5, a) for a in fam)
+    res["chain_plus(5,2)"] = len(fam)
     return res
 
 
